@@ -3,7 +3,7 @@
 The trusted base is `pickle._Unpickler` itself; this file only
   * replaces global resolution / persistent_load by inert, logging stand-ins,
   * normalises NEWOBJ / NEWOBJ_EX to "call cls with args/kwargs" (fickling's
-    documented model of these opcodes) and FROZENSET to "frozenset(items)",
+    documented model of these opcodes),
   * copies the `load()` loop verbatim with one callback after every dispatched
     opcode so the VM's shape (depth, mark positions, memo keys) can be observed.
 
@@ -211,14 +211,9 @@ class RefVM(_Unpickler):
             raise TypeError("NEWOBJ_EX class argument is not a resolved global")
         self.append(cls(*args, **kwargs))
 
-    def load_frozenset(self):
-        items = self.pop_mark()
-        self.append(make_glob("builtins", "frozenset", self.log)(items))
-
     dispatch = dict(_Unpickler.dispatch)
     dispatch[pickle.NEWOBJ[0]] = load_newobj
     dispatch[pickle.NEWOBJ_EX[0]] = load_newobj_ex
-    dispatch[pickle.FROZENSET[0]] = load_frozenset
 
 
 class RefResult:
